@@ -162,6 +162,66 @@ Definition run64 (cap : N) (fs : list frame) : sst :=
 Definition stream64 (cap : N) (fs : list frame) : list str * outcome :=
   let s := run64 cap fs in (yielded s, finish s).
 
+(* ------------------------------------------------------------------ *)
+(* 2b. the same stream on frame LENGTHS only.  The code looks at a data
+   frame only through [buf.len()]; BodyCapProofs.stream_len_abs shows this
+   abstraction is exact (chunk sizes yielded, outcome, frames pulled).  Used
+   to evaluate the model on bodies too large to write down byte by byte
+   (mebibytes, gibibytes). *)
+Inductive lframe :=
+| LData (n : N)
+| LTrailers
+| LErr.
+
+Definition lframe_of (f : frame) : lframe :=
+  match f with
+  | FData bs => LData (blen bs)
+  | FTrailers => LTrailers
+  | FErr => LErr
+  end.
+
+Record lst := LSt {
+  lph : phase;
+  lbytes_read : N;
+  lout_rev : list N;     (* sizes of the chunks yielded so far, newest first *)
+  lpolled : N
+}.
+
+Definition linit : lst := LSt PRun 0 [] 0.
+
+Definition lstep (cap : N) (s : lst) (f : lframe) : lst :=
+  match lph s with
+  | PEnd _ => s
+  | PRun =>
+      match f with
+      | LErr => LSt (PEnd NetErr400) (lbytes_read s) (lout_rev s) (lpolled s + 1)
+      | LTrailers => LSt PRun (lbytes_read s) (lout_rev s) (lpolled s + 1)
+      | LData len =>
+          if cap <? lbytes_read s + len
+          then LSt PDrain (lbytes_read s) (lout_rev s) (lpolled s + 1)
+          else LSt PRun (lbytes_read s + len) (len :: lout_rev s) (lpolled s + 1)
+      end
+  | PDrain =>
+      match f with
+      | LErr => LSt (PEnd NetErr400) (lbytes_read s) (lout_rev s) (lpolled s + 1)
+      | LTrailers | LData _ => LSt PDrain (lbytes_read s) (lout_rev s) (lpolled s + 1)
+      end
+  end.
+
+Definition lfinish (s : lst) : outcome :=
+  match lph s with
+  | PRun => Done
+  | PDrain => Refused400
+  | PEnd o => o
+  end.
+
+Definition lrun (cap : N) (ls : list lframe) : lst := fold_left (lstep cap) ls linit.
+
+(* sizes of the chunks yielded, outcome *)
+Definition stream_len (cap : N) (ls : list lframe) : list N * outcome :=
+  let s := lrun cap ls in (rev' (lout_rev s), lfinish s).
+Definition frames_polled_len (cap : N) (ls : list lframe) : N := lpolled (lrun cap ls).
+
 (* sizes *)
 Definition total (cs : list str) : N := fold_right (fun c a => blen c + a) 0 cs.
 
